@@ -32,7 +32,7 @@ P = {
          "3/C05"),
  "C02": ("faults", "fault_enumeration",
          "fault enumeration (every call index x every fault kind, then every second fault) over monitored metastore/KMS/AEAD with a raw-store audit and a crash-model decrypt",
-         "For 10 key states x 3 cache configurations a clean run records the external-call trace of the encrypt under test; every call index then gets every fault kind valid for it (error, false-without-write, write-then-error, write-then-false, one-precision-unit latency) and, depth-first, every second fault at each later call of the faulted run (sampled in quick, complete in thorough). After each execution the raw store is audited for the IK and SK rows named by the returned record, a brand-new cache-less factory (crash) must decrypt it, a failed op must return (nil, err), and after faults stop the next encrypt and earlier records must work on the same session. Encrypt and decrypt operations are enumerated. The enumeration is repeated (single faults, sampled pairs) with region-suffixed key ids and over the DynamoDB and SQL plug-ins on their fakes; real-goroutine rounds let six cold processes insert the same new keys at once over every back end.",
+         "For 10 key states x 3 cache configurations a clean run records the external-call trace of the encrypt under test; every call index then gets every fault kind valid for it (error, false-without-write, write-then-error, write-then-false, one-precision-unit latency) and, depth-first, every second fault at each later call of the faulted run (sampled in quick, complete in thorough). After each execution the raw store is audited for the IK and SK rows named by the returned record, a brand-new cache-less factory (crash) must decrypt it, a failed op must return (nil, err), and after faults stop the next encrypt and earlier records must work on the same session. Encrypt and decrypt operations are enumerated. The enumeration is repeated (single faults, sampled pairs) with region-suffixed key ids and over the DynamoDB and SQL plug-ins on their fakes; with both AWS KMS plug-ins over a fake two-region cloud as the KMS (the crash-model process prefers the other region and finds the first one unreachable); real-goroutine rounds let six cold processes insert the same new keys at once over every back end.",
          "Trusted: testing/synctest clock; faults fail without partial effect except the explicit write-then-error kinds; partial writes inside a real database are out of reach.",
          "3/C02"),
  "C09": ("faults", "fault_enumeration",
